@@ -36,7 +36,7 @@ import json
 import os
 
 from hv.common import rng_for
-from hv.proc import CaseDir, compiled_paths, hy_script, python
+from hv.proc import CaseDir, child_problem, compiled_paths, hy_script, python, skip_gate
 
 ID = "C15"
 LEVEL = "exploration"
@@ -49,9 +49,9 @@ RULE = ("generated packages: one macro module (3-7 macros; private, dashed, Unic
         "Non-trivial = package whose clients use >= 2 distinct require shapes and whose byte-code path was detected; "
         "distinct by rendered files. Plus extension-clause cases (file names x {hy FILE, python -m hy FILE, "
         "runhy.run_path, import}).")
-FLOOR = {"quick": 100, "thorough": 150}
+FLOOR = {"quick": 15, "thorough": 150}
 BUDGET = {"quick": 40, "thorough": 480}
-CASE_TIMEOUT = 150
+CASE_TIMEOUT = 400      # > 3 x 40 (trio) + 3 x 2 x 40 (attribution re-runs); ext: 8 x 30 + 2 x 40
 NEEDS_EVENTS = True      # events = positive byte-code-path detections + extension-clause observations
 ANCHORS = []   # the mechanisms run in child processes; in-process line probes cannot see them.
                # Reach is shown instead by what the children report (Compiling <path>, sys.argv, STAGE log).
@@ -416,7 +416,8 @@ def cases(seed, tier, shard, nshards):
     i = k = 0
     while True:
         k += 1
-        if k % 5 == 3:
+        # the gate-bearing class (extension clause) comes first in every shard, then every 5th case
+        if k % 5 == 1:
             rng = rng_for(seed, ID, shard, i)
             i += 1
             yield gen_ext(rng, tier)
@@ -645,16 +646,15 @@ def observe(pkgs, files_list, nproc):
         env = cd.env()
         runs = []
         for k in range(nproc):
-            r = cd.run([python(), drv, spec], env=env, timeout=60)
-            if r["rc"] is None:
-                return [(None, "inconclusive:child-timeout", 0)] * len(pkgs)
+            r = cd.run([python(), drv, spec], env=env, timeout=40)
+            if child_problem(r):
+                return [(None, child_problem(r), 0)] * len(pkgs)
             runs.append(r)
     dumps = [parse_dump(r["out"]) for r in runs]
     if any(d is None or len(d) != len(pkgs) for d in dumps):
-        k = [d is None or len(d) != len(pkgs) for d in dumps].index(True)
-        # the driver catches everything; no dump means the interpreter died
-        return [(False, (f"process {k + 1} produced no dump: rc={runs[k]['rc']} "
-                         f"stderr={runs[k]['err'][-400:]}"), 0)] * len(pkgs)
+        # the driver catches every exception, so a missing dump means the interpreter itself
+        # died (killed, out of memory, ...): nothing was observed about hy -> skip
+        return [(None, "child-no-dump", 0)] * len(pkgs)
     comp = [set(compiled_paths(r["err"])) for r in runs]
     out = []
     for j, case in enumerate(pkgs):
@@ -757,19 +757,19 @@ def run_ext(case):
         if case["route"] in ("hy", "pymhy"):
             launcher = [hy_script()] if case["route"] == "hy" else [python(), "-m", "hy"]
             for label, p in paths:
-                r = cd.run(launcher + [p], env=env, timeout=45)
-                if r["rc"] is None:
-                    res.update(ok=None, classes=classes + ["inconclusive:child-timeout"])
+                r = cd.run(launcher + [p], env=env, timeout=30)
+                if child_problem(r):
+                    res.update(ok=None, classes=classes + [child_problem(r)])
                     return res
                 name, lang = label.rsplit("|", 1)
                 obs.append((name, lang, case["route"], [r["rc"], r["out"], r["err"][-300:]]))
         else:
             drv = cd.write("_xdrv.py", EXT_DRIVER)
             spec = cd.write("_xspec.json", json.dumps({"mode": "runhy", "paths": paths}))
-            r = cd.run([python(), drv, spec], env=env, timeout=60)
+            r = cd.run([python(), drv, spec], env=env, timeout=40)
             d = parse_dump(r["out"])
             if d is None:
-                res.update(ok=None, classes=classes + ["inconclusive:no-dump"], why=r["err"][-300:])
+                res.update(ok=None, classes=classes + [child_problem(r) or "child-no-dump"], why=r["err"][-300:])
                 return res
             for label, o in d.items():
                 name, lang = label.rsplit("|", 1)
@@ -783,10 +783,10 @@ def run_ext(case):
             spec = cd.write("_ispec.json", json.dumps({
                 "mode": "import", "root": os.path.join(cd.path, "imp"),
                 "mods": [[fn, fn.split(".")[0]] for fn, _, _ in mods]}))
-            r = cd.run([python(), drv, spec], env=env, timeout=60)
+            r = cd.run([python(), drv, spec], env=env, timeout=40)
             d = parse_dump(r["out"])
             if d is None:
-                res.update(ok=None, classes=classes + ["inconclusive:no-dump"], why=r["err"][-300:])
+                res.update(ok=None, classes=classes + [child_problem(r) or "child-no-dump"], why=r["err"][-300:])
                 return res
             classes.append("route:import")
             for fn, lang, _ in mods:
@@ -818,6 +818,10 @@ def run_case(case):
 
 
 def gate(tot, classes, extra, tier):
+    # `classes` is the histogram of the whole run (all shards)
+    lost = skip_gate(tot, classes)
+    if lost:
+        return lost
     if not classes.get("bytecode-path-detected"):
         return "bytecode-path-never-detected"
     if classes.get("inconclusive:bytecode-path-not-detected", 0) > 0.2 * classes.get("pkg", 1):
